@@ -1,12 +1,13 @@
 #!/bin/bash
-# processes lines "<Cxx> <mutationN> <checks...>" appended to /tmp/muteval/queue.txt, one at a time
-mkdir -p /tmp/muteval; touch /tmp/muteval/queue.txt
+# processes lines "<Cxx> <mutationN> <checks...>" appended to /tmp/muteval/${1:-queue}.txt, one at a time (start several with different names to evaluate in parallel)
+Q=/tmp/muteval/${1:-queue}.txt
+mkdir -p /tmp/muteval; touch $Q
 n=0
 while [ ! -e /tmp/muteval/STOP ]; do
-  total=$(wc -l < /tmp/muteval/queue.txt)
+  total=$(wc -l < $Q)
   if [ "$n" -lt "$total" ]; then
     n=$((n+1))
-    line=$(sed -n "${n}p" /tmp/muteval/queue.txt)
+    line=$(sed -n "${n}p" $Q)
     set -- $line
     id=$1; mut=$2; shift 2
     out=/tmp/muteval/$id-${mut#mutation}.json
